@@ -103,10 +103,22 @@ Section Select.
     | Err e :: _ => Err e
     end.
 
-  (* multivariate data: a list of components with the same n_obs;
-     `[component[index] for component in self.data]`, one getter per component *)
+  (* multivariate data: a list of components with the same n_obs (the container
+     constructor checks it and raises ValueError otherwise);
+     `MultivariateFunctionalData([component[index] for component in self.data])`,
+     one getter per component *)
+  Definition same_nobs (comps : list dataset) : bool :=
+    match comps with
+    | [] => true
+    | c :: cs => forallb (fun d => Nat.eqb (length d) (length c)) cs
+    end.
+  Definition multi_make (comps : list dataset) : res (list dataset) :=
+    if same_nobs comps then Ok comps else Err ValueError.
   Definition getitem_multi (gets : list (index -> res dataset)) (ix : index) : res (list dataset) :=
-    res_all (map (fun g => g ix) gets).
+    match res_all (map (fun g => g ix) gets) with
+    | Ok comps => multi_make comps
+    | Err e => Err e
+    end.
 
   (* the old-style sequence iteration protocol: call get 0, get 1, ... until IndexError *)
   Fixpoint seq_iter {A} (fuel : nat) (get : Z -> res A) (i : Z) : res (list A) :=
@@ -170,6 +182,12 @@ Section Select.
     let temp := Z.of_nat (length acc) in
     fold_left (fun a kv => dict_set (temp + fst kv) (snd kv) a) el acc.
   Definition relabel_shift (ds : list dataset) : dataset := fold_left shift_into ds [].
+
+  (* MultivariateFunctionalData.concatenate: component by component (one concatenation
+     rule per component), then the container constructor *)
+  Definition concatenate_multi (cats : list (list dataset -> dataset))
+             (pieces : list (list dataset)) : res (list dataset) :=
+    multi_make (map (fun cp => fst cp (snd cp)) (combine cats pieces)).
 End Select.
 
 (* `for idx, obs in enumerate(self): ... obs.argvals[idx]`: the first position
